@@ -99,3 +99,31 @@ contract("C08.validate_pound_sign_count", file=SC, func="SidecarValidator._valid
              "C08.pound.code": "all_in(result, lambda x: x.code == 'PLACEHOLDER_INVALID' and x.severity == 1)",
              "C08.pound.caller_string_untouched": "hed_string.__str__ == old(hed_string.__str__)",
          })
+
+# C08 "every value column's template holds exactly one '#'" needs every annotated column's texts to REACH the per-string rules: a column
+# that has a type hands its annotation (whatever it is - also an empty template) to the series the validator walks; only a column the
+# sidecar does not annotate hands out nothing
+_cm8("HedDictM", {"__bool__": "Bool"})      # (a str or dict: may be empty)
+_cm8("ColumnMetadataM", {"column_type": "Opt[Str]", "hed_dict": "HedDictM"})
+try:
+    def _pd_series(interp, args, kwargs):
+        """pd.Series(data?, ...): an unmodelled value; the ghost state remembers from what it was built"""
+        from pyvc.vals import Opaque as _Opq, INT as _INT8
+        g = interp.ctx.ghost
+        g["series_built"] = _SV8(_INT8, interp.ctx.term(g.get("series_built", 0), _INT8) + 1)
+        g["series_has_data"] = bool(args) or ("data" in kwargs)
+        g["series_data"] = args[0] if args else kwargs.get("data")
+        return _Opq("pd.Series()", fresh=True)
+    _EX8["pd.Series"] = _pd_series
+except NameError:
+    pass
+contract("C08.annotated_column_hands_out_its_annotation", file="hed/models/column_metadata.py", func="ColumnMetadata.get_hed_strings",
+         params={"self": "ColumnMetadataM"}, returns="Opaque", enc="native", self_class="ColumnMetadataM", prop="C08", also=["C06"],
+         requires=["implies(self.column_type is not None, len(self.column_type) > 0)"],
+         ghost={"init": {"series_built": "0", "series_has_data": "False", "series_data": "None"}},
+         ensures={
+             "C08.texts.typed_column_series_is_built_from_its_annotation":
+                 "implies(self.column_type is not None, series_built == 1 and series_has_data and series_data is self.hed_dict)",
+             "C08.texts.untyped_column_hands_out_nothing": "implies(self.column_type is None, series_built == 1 and not series_has_data)",
+         },
+         assume=["a ColumnType member is truthy (Enum); pd.Series(d, dtype=str) holds exactly the texts of d"])
